@@ -80,12 +80,40 @@ CLAIMED["C02"] = {
     "design_ref": "DESIGN.md §5 C02",
 }
 
+_LIB = ("Relative proof: microlp 0.5 is assumed to honour its documented contract, written down in prelude/libs/microlp.rs (Optimal/Feasible = stored point feasible, integer columns exact, "
+        "objective() its objective; Interrupted = nothing promised; Err(Infeasible)/Err(Unbounded) genuine; invalid gaps rejected). ")
+CLAIMED["C04"] = {
+    "text": "For the MILP bridge (and auto_solver, which delegates to it) it is proved for ALL linear models that the problem handed to the library is exactly the model (column k = variable k with its objective coefficient, bounds and integrality; "
+            "row j = constraint j term by term with the same relation and right-hand side; direction), and that a returned solution is the library's feasible point read back faithfully: one assignment per variable in order, "
+            "integer and Boolean values exact, reported value = library objective + offset. optimal_value of the tableau path maps the sign flip and offset correctly. "
+            "NOT decided: feasibility inside the external solvers themselves (assumed contract), the good_lp/Clarabel bridges, named-row activities (calc_constraints), the name filtering of as_lp_solution.",
+    "note": _LIB + "Trusted preludes: f64_layer.rs, smap.rs, std_stubs.rs. Assumed: LpSolution::new field-wise construction, make_constraints_map_from_assignment.",
+    "technique": "Verus loop invariants over a ghost model of the microlp Problem/Solution on the extracted solve_milp_lp_problem_with",
+    "design_ref": "DESIGN.md §5 C04",
+}
+CLAIMED["C05"] = {
+    "text": "Verdict mapping proved on the real code: Err(Infeasible)/Err(Unbounded) of the MILP bridge are returned only when the library reports them for exactly this model; auto_solver answers without the solver only a model with no rows and no variables; "
+            "one step of the tableau simplex reports Finished only without an improving column and Unbounded only with a genuine witness column (U14.step), pivots preserve the solution set (U14.pivot). "
+            "NOT decided: that the simplex always reaches a verdict (termination), the two-phase start, Clarabel status mapping, agreement between solvers (a corollary of each being right, relative to the assumed library contracts).",
+    "note": _LIB + "Kani harnesses for the tableau selection rules are bounded (labelled).",
+    "technique": "Verus contracts on extracted auto_solver / solve_milp_lp_problem_with / Tableau::step_inner; Kani bounded harnesses for find_h/find_t",
+    "design_ref": "DESIGN.md §5 C05",
+}
+CLAIMED["C15"] = {
+    "text": "For every model and every option setting it is proved that the MILP bridge never returns a solution from an interrupted search (the call is an error), labels a solution Optimal only if the library proved optimality within the requested gap, "
+            "keeps a feasible-but-unproven incumbent labelled Feasible, forwards the gap unchanged, and returns an error for a negative or non-finite gap (rejected by the library). "
+            "NOT decided: what the library does inside its time limit (assumed contract); the good_lp status mapping.",
+    "note": _LIB,
+    "technique": "Verus postconditions relating LpSolution.status to the ghost Solution status on the extracted solve_milp_lp_problem_with",
+    "design_ref": "DESIGN.md §5 C15",
+}
+
 NOT_APPLICABLE = {
     "C03": "quantifies over source texts through the pest-generated parser and an external MILP search; every in-repo step that can carry a contract is covered by C01/C02/C04/C05; no further function exists to attach an obligation to",
     "C06": "relates two parses; the expansion engine works on parser IL with dyn Fn callbacks, scope frames and evaluated iterables that Verus does not accept and Kani cannot execute; its specification would be a formal semantics of the whole language",
     "C09": "the operator table is data handed to pest's PrattParser and tokens come from macro-generated grammar code; neither verifier can take that code, and assuming the library implements precedence climbing would assume the property",
     "C17": "the export is text read by an independent reader; a contract would need a formal LP-format reader and a string theory for format!/push_str output; Kani cannot execute float formatting",
     "C20": "sensitivities are computed inside clarabel/good_lp; rooc only forwards them by name, so no contract on repository code decides the sign convention",
-    "C04": PENDING, "C05": PENDING, "C08": PENDING, "C10": PENDING, "C11": PENDING, "C12": PENDING,
-     "C15": PENDING, "C16": PENDING, 
+    "C08": PENDING, "C10": PENDING, "C11": PENDING, "C12": PENDING,
+     "C16": PENDING, 
 }
